@@ -1908,7 +1908,7 @@ func (ex *Exec) intrinsic(st *State, fr *Frame, key string, callee *ssa.Function
 		ex.lockOp(st, fr, key, args[0], instr)
 		k(st, nil)
 		return true
-	case "sync/atomic.AddInt32", "sync/atomic.AddInt64":
+	case "sync/atomic.AddInt32", "sync/atomic.AddInt64", "sync/atomic.AddUint32", "sync/atomic.AddUint64":
 		ex.trusted["sync/atomic operations are atomic read-modify-writes"] = true
 		elemT := callee.Signature.Params().At(0).Type().(*types.Pointer).Elem()
 		loc := ex.ptrLoc(args[0], elemT)
@@ -1923,7 +1923,7 @@ func (ex *Exec) intrinsic(st *State, fr *Frame, key string, callee *ssa.Function
 		ex.storeLoc(st, loc, scalar(nv))
 		k(st, scalar(nv))
 		return true
-	case "sync/atomic.LoadInt32", "sync/atomic.LoadInt64":
+	case "sync/atomic.LoadInt32", "sync/atomic.LoadInt64", "sync/atomic.LoadUint32", "sync/atomic.LoadUint64":
 		ex.trusted["sync/atomic operations are atomic read-modify-writes"] = true
 		elemT := callee.Signature.Params().At(0).Type().(*types.Pointer).Elem()
 		loc := ex.ptrLoc(args[0], elemT)
@@ -1962,7 +1962,7 @@ func (ex *Exec) intrinsic(st *State, fr *Frame, key string, callee *ssa.Function
 			k(st, scalar(ok))
 		}
 		return true
-	case "sync/atomic.StoreInt32", "sync/atomic.StoreInt64":
+	case "sync/atomic.StoreInt32", "sync/atomic.StoreInt64", "sync/atomic.StoreUint32", "sync/atomic.StoreUint64":
 		elemT := callee.Signature.Params().At(0).Type().(*types.Pointer).Elem()
 		loc := ex.ptrLoc(args[0], elemT)
 		ex.storeLoc(st, loc, args[1])
